@@ -12,10 +12,11 @@
                                      3 right assign
      (3 a b)                         matrix multiplication
      (4 mutating e a)                map / map_with_index / map_mut / map_mut_with_index
-     (5 tensor shape colmajor a)     from_iter(shape, iter_as_records / column major)
+     (5 tensor shape colmajor e a)   from_iter(shape, iter_as_records (row / column major).map(e))
      (6 e1 e2 a)                     from_iters::<2>  (adds two containers)
    scalar closures e: (0) the element | (1 c) constant | (2 e) Record::constant(e.number) |
-     (3 code c e) | (4 code e1 e2) | (5 e1 e2) e1 at the first index else e2
+     (3 code c e) | (4 code e1 e2) | (5 e1 e2) e1 at the first index else e2 |
+     (6) a clone of a variable of ANOTHER WengertList (number 1)
    Result (n outcome): n operations completed; ok payload (C E):
      C per output: (shape hist ((v i) ...) derivs)   derivs: () for constants, else
          ((per element (per input container (d ...))))
@@ -47,6 +48,7 @@ Fixpoint dsexpr (fuel : nat) (s : sx) : option (sexpr R) :=
       | SL [SZ 5%Z; e1; e2] =>
           match dsexpr fuel' e1, dsexpr fuel' e2 with
           | Some e1, Some e2 => Some (SFirst e1 e2) | _, _ => None end
+      | SL [SZ 6%Z] => Some SOther
       | _ => None
       end
   end.
@@ -74,11 +76,11 @@ Definition dcop (D : nat) (s : sx) : option (cop R) :=
   | SL [SZ 4%Z; mutating; e; a] =>
       match dbool mutating, dsexpr 12 e, dnat a with
       | Some m, Some e, Some a => Some (OMap m e a) | _, _, _ => None end
-  | SL [SZ 5%Z; tensor; sh; colmajor; a] =>
-      match dbool tensor, dshape06 sh, dbool colmajor, dnat a with
-      | Some tensor, Some sh, Some cm, Some a =>
-          if tensor && negb (Nat.eqb (length sh) D) then None else Some (OFromIter tensor sh cm a)
-      | _, _, _, _ => None
+  | SL [SZ 5%Z; tensor; sh; colmajor; e; a] =>
+      match dbool tensor, dshape06 sh, dbool colmajor, dsexpr 12 e, dnat a with
+      | Some tensor, Some sh, Some cm, Some e, Some a =>
+          if tensor && negb (Nat.eqb (length sh) D) then None else Some (OFromIter tensor sh cm e a)
+      | _, _, _, _, _ => None
       end
   | SL [SZ 6%Z; e1; e2; a] =>
       match dsexpr 12 e1, dsexpr 12 e2, dnat a with
